@@ -44,7 +44,7 @@ Section Build.
 Variable g : grammar.
 
 Definition good (a : automaton) (q : Z) (st : lstate) : Prop :=
-  exists i gamma, reach a i gamma q /\
+  exists i gamma, (0 <= i /\ exists inp, nth_error (g_inputs g) (Z.to_nat i) = Some inp) /\ reach a i gamma q /\
                   (forall it, In it (s_kernel st) -> lr0_kernel g i gamma it) /\
                   (forall it, In it (closure g (s_kernel st) (s_seed st)) -> lr0_valid g i gamma it).
 
@@ -56,7 +56,7 @@ Definition B2 (a : automaton) (k : Z) (proc : list Z) : Prop :=
 
 Lemma good_mono a a' q st :
   (forall q s t, trans_target a q s = Some t -> trans_target a' q s = Some t) -> good a q st -> good a' q st.
-Proof. intros H (i & gamma & Hr & H1 & H2). exists i, gamma. split; [eapply reach_mono; eauto|auto]. Qed.
+Proof. intros H (i & gamma & Hi & Hr & H1 & H2). exists i, gamma. split; auto. split; [eapply reach_mono; eauto|auto]. Qed.
 
 Definition goto_kernel (cl : list item) (sym : Z) : list item :=
   fold_left (fun acc it => match sym_after g it with
@@ -123,8 +123,8 @@ Proof.
            { assert (Hs : (Z.to_nat q < length (sts ++ [tgt]))%nat) by (apply nth_error_Some; congruence).
              rewrite app_length in Hs. simpl in Hs. lia. }
            rewrite Hqe, nth_error_app2, Nat.sub_diag in Hst' by lia. simpl in Hst'. injection Hst' as <-.
-           destruct (HB1 k st Hk Hst) as (i & gamma & Hr & _ & Hval).
-           exists i, (gamma ++ [sym]). split; [|split].
+           destruct (HB1 k st Hk Hst) as (i & gamma & Hi & Hr & _ & Hval).
+           exists i, (gamma ++ [sym]). split; [exact Hi|]. split; [|split].
            ++ econstructor; [eapply reach_mono; [exact Hmono|exact Hr]|].
               assert (Eq : q = Z.of_nat (length sts)) by lia. rewrite Eq. unfold a'. apply trans_target_new. exact Hfreshtr.
            ++ intros it Hit0.
@@ -184,7 +184,7 @@ Lemma start_inv : B1 (mkAut start_states []).
 Proof.
   intros q st Hq Hst. simpl in Hst. unfold start_states in Hst. rewrite nth_error_map in Hst.
   destruct (nth_error (g_inputs g) (Z.to_nat q)) as [[nt e]|] eqn:Einp; [|discriminate].
-  injection Hst as <-. exists q, []. split; [constructor|]. split; [intros it []|]. simpl.
+  injection Hst as <-. exists q, []. split; [eauto|]. split; [constructor|]. split; [intros it []|]. simpl.
   apply closure_sound.
   - intros it [].
   - intros nt' r [= <-] Hr. eapply l0_start; eauto.
@@ -197,6 +197,17 @@ Theorem build_loop_sound fuel :
   exists i gamma, reach a i gamma q /\
                   (forall it, In it (s_kernel st) -> lr0_kernel g i gamma it) /\
                   (forall it, In it (closure g (s_kernel st) (s_seed st)) -> lr0_valid g i gamma it).
+Proof.
+  intros a q st Hq Hst.
+  destruct (build_loop_inv fuel (mkAut start_states []) 0 ltac:(lia) start_inv) with (q := q) (st := st)
+    as (i & gamma & _ & H); [|exact Hq|exact Hst|eauto].
+  intros f s t [].
+Qed.
+
+(* the same with the start state being the one of an input *)
+Theorem build_loop_sound_input fuel :
+  let a := build_loop fuel g (mkAut start_states []) 0 in
+  forall q st, 0 <= q -> nth_error (a_states a) (Z.to_nat q) = Some st -> good a q st.
 Proof.
   intros a q st Hq Hst.
   apply (build_loop_inv fuel (mkAut start_states []) 0 ltac:(lia) start_inv); [|exact Hq|exact Hst].
